@@ -1074,9 +1074,10 @@ def gen_real(tier):
     # (The real-time boards showed this by accident, through the start-up time of the library; on the
     # virtual clock the gap has to be scripted.)
     out.append(mk((2, 0), (), 1, pre_extra=[("sleep", 1)], acts={"A1": {1: [("alarm", 2, 1.5)]}}))
-    if tier != "quick":
-        for s in gen_exc_types(["runtime", "stopiter", "oserror", "interrupted", "keyboard", "base"]):
-            out.append(s)
+    # every exception class from an alarm, a watch and an idle callback (both tiers: on the virtual
+    # clock a script costs milliseconds)
+    for s in gen_exc_types(["runtime", "stopiter", "oserror", "interrupted", "keyboard", "base"]):
+        out.append(s)
     return out
 
 
@@ -1090,6 +1091,21 @@ def _key(scen):
 
 def _why(res):
     return "; ".join(f"[{c}] {m}" for c in CLAUSES for m in res["viol"][c][:2])
+
+
+def _shape(scen):
+    """Distinguishing inputs of a script, as flat fields of the failure detail (known findings match on
+    them): which kinds of callback act (A alarm / P watch / I idle), which operations they perform
+    ("raise:<kind>" for raises), which operations are made before run(), the ready / batch order."""
+    acts = scen.get("acts", {})
+    opname = lambda o: f"raise:{o[1]}" if o[0] == "raise" else o[0]  # noqa: E731
+    return {
+        "actors": sorted(acts),
+        "actor_kinds": sorted({a[0] for a in acts}),
+        "act_ops": sorted({opname(o) for per in acts.values() for ops in per.values() for o in ops}),
+        "pre_ops": sorted({o[0] for o in scen.get("pre", ())}),
+        "order": scen.get("order", "asc"),
+    }
 
 
 class _Board:
@@ -1121,7 +1137,7 @@ class _Board:
             if not res["viol"][c]:
                 self.checks[c].case(key, True, None, nontrivial=res["used"][c], sample={"family": family, "scenario": scen} if res["used"][c] else None)
                 continue
-            detail = {"loop": self.label, "clause": c, "family": family, "scenario": scen, "why": "; ".join(res["viol"][c][:3])}
+            detail = {"loop": self.label, "clause": c, "family": family, "scenario": scen, "why": "; ".join(res["viol"][c][:3]), **_shape(scen)}
             if extra:
                 detail.update(extra)
             kind = self._kind(res["viol"][c][0])
@@ -1233,12 +1249,17 @@ def _run_real_board(kind, tier, scens, par, vtime=True):
             flaky += 1
             if infra:
                 res[i] = {"viol": {c: [] for c in CLAUSES}, "used": res[i]["used"], "notes": res[i]["notes"]}
+    # scripts in which time passes between alarm() and run() get checks of their own
+    # (C13/<loop>-prerun/<clause>): they probe "the delay counts from the alarm() call", a defect class
+    # of its own, which must stay tellable from the ordering failures of the main board
+    board2 = _Board(label + "-prerun", rule + "; scripts in which time passes between the alarm() calls and run()", "scripts with a 'sleep' before run()", False)
     notes = defaultdict(int)
     for i, (s, r) in enumerate(zip(scens, res)):
-        board.add(s, r, {"seen_in_runs": f"{repro[i]}/3"} if i in repro else None, family="real")
+        b = board2 if any(o[0] == "sleep" for o in s.get("pre", ())) else board
+        b.add(s, r, {"seen_in_runs": f"{repro[i]}/3"} if i in repro else None, family="real")
         for n in r["notes"]:
             notes[n.split("#")[0][:60]] += 1
-    return board, flaky, dict(notes)
+    return [board, board2], flaky, dict(notes)
 
 
 REAL_KINDS = ("select", "asyncio", "tornado", "twisted", "trio", "zmq")
@@ -1249,8 +1270,9 @@ REAL_KINDS = ("select", "asyncio", "tornado", "twisted", "trio", "zmq")
 # in 1 of 3 runs of the *passive* script).  The statement is decided on the vtime boards, which run the
 # same scripts on the same loops deterministically; the real-time runs are kept as observations.
 INFORMATIONAL = {
-    f"C13/{_k}-realtime/{_c}": "real-time run (30 ms units, real sleeps): outcome depends on wall-clock scheduling of the child process; the same scripts are decided deterministically by C13/" + _k + "-vtime/" + _c
+    f"C13/{_k}-realtime{_s}/{_c}": "real-time run (30 ms units, real sleeps): outcome depends on wall-clock scheduling of the child process; the same scripts are decided deterministically by C13/" + _k + "-vtime/" + _c
     for _k in REAL_KINDS
+    for _s in ("", "-prerun")
     for _c in CLAUSES
 }
 
@@ -1272,9 +1294,10 @@ def run(tier="quick", seed=0):
         # quick tier: virtual time only (no wall-clock dependence at all); thorough: also real time (INFORMATIONAL)
         for vtime in (True,) if quick else (True, False):
             t1 = _time.time()
-            b, flaky, notes = _run_real_board(kind, tier, scens, par, vtime)
-            real_checks += b.results()
-            info[b.label] = {"scripts": len(scens) * (2 if kind == "trio" else 1), "seen_once_only_on_rerun": flaky, "failure_kinds": {f"{c}: {m}": n for (c, m), n in b.fail_kinds.items()}, "notes": notes, "wall_s": round(_time.time() - t1, 1)}
+            boards, flaky, notes = _run_real_board(kind, tier, scens, par, vtime)
+            for b in boards:
+                real_checks += b.results()
+            info[boards[0].label] = {"scripts": len(scens) * (2 if kind == "trio" else 1), "seen_once_only_on_rerun": flaky, "failure_kinds": {f"{b.label}/{c}: {m}": n for b in boards for (c, m), n in b.fail_kinds.items()}, "notes": notes, "wall_s": round(_time.time() - t1, 1)}
     t0 = _time.time()
     board, counts = _run_virtual_board("select", "select-virtual", tier, seed, _virtual_families(tier, seed), procs)
     checks += board.results()
@@ -1296,7 +1319,7 @@ def run(tier="quick", seed=0):
             if s.get("drift") and any(o[0] == "alarm" for o in s["pre"]) and any(o[0] == "watch" for o in s["pre"]):
                 s["drift"] = 1 / 8192  # a clock reading costs 0.12 ms: less than the millisecond lost by truncation
                 r = judge(run_virtual("zmq", s))
-                sub.case(_key(s), not r["viol"]["alarm"], {"loop": "zmq-virtual", "clause": "alarm", "scenario": s, "why": "; ".join(r["viol"]["alarm"][:2])}, sample=s)
+                sub.case(_key(s), not r["viol"]["alarm"], {"loop": "zmq-virtual", "clause": "alarm", "scenario": s, "why": "; ".join(r["viol"]["alarm"][:2]), **_shape(s)}, sample=s)
         checks.append(sub.result())
     checks += real_checks
     return {
@@ -1317,7 +1340,7 @@ def replay(check_name, case):
     else:
         # vtime boards are deterministic (one run decides); a real-time race inside a third-party
         # scheduler need not show on every run, so up to 5 runs are made there
-        vtime = not label.endswith("-realtime")
+        vtime = "-realtime" not in label
         bad = []
         for _ in range(1 if vtime else 5):
             (tr,) = run_real_many([(kind, scen)], 1, vtime=vtime)
